@@ -84,17 +84,22 @@ class _Awaitable:
 class TableRel:
     """Recording relationship checker answering from a table keyed by (subject, relation, resource)."""
 
-    def __init__(self, table: list, default: Any, calls: list, mode: str = "sync"):
+    RAISES = {"RuntimeError": RuntimeError, "TimeoutError": TimeoutError, "asyncio.TimeoutError": asyncio.TimeoutError,
+              "OSError": OSError, "KeyError": KeyError}
+
+    def __init__(self, table: list, default: Any, calls: list, mode: str = "sync", raise_with: str | None = None):
         self.table = {(s, r, o): a for s, r, o, a in table}
         self.default = default
         self.calls = calls
         self.mode = mode
+        self.exc = self.RAISES.get(raise_with or "RuntimeError", RuntimeError)
 
     def _answer(self, subject, relation, resource, context):
         self.calls.append([subject, relation, resource, enc(context)])
         a = self.table.get((subject, relation, resource), self.default)
         if a is None:
-            raise RuntimeError("rel backend down")
+            # a backend that fails: whatever it raises (also a timeout of its own), the lookup is false — and stays looked up
+            raise self.exc("rel backend down")
         return a
 
     def check(self, subject, relation, resource, *, context=None):
@@ -166,7 +171,8 @@ def make_guard(policy: dict, cfg: dict, events: list, rel_calls: list | None = N
         kw["role_resolver"] = rs if hasattr(rs, "expand") else FixedResolver(rs, amode)
     rel = cfg.get("rel")
     if rel is not None:
-        kw["relationship_checker"] = TableRel(rel["table"], rel.get("default"), rel_calls if rel_calls is not None else [], amode)
+        kw["relationship_checker"] = TableRel(rel["table"], rel.get("default"), rel_calls if rel_calls is not None else [], amode,
+                                              rel.get("raise_with"))
     if cfg.get("metrics"):
         kw["metrics"] = (AsyncRecMetrics if amode != "sync" else RecMetrics)(events, cfg.get("sink_mode", "sync"))
     if cfg.get("logger"):
@@ -192,11 +198,11 @@ def call_guard(g: Guard, req: dict, flavour: str = "sync"):
     return g.evaluate_sync(s, a, r, c)
 
 
-def run_guard(policy: dict, req: dict, cfg: dict, flavour: str = "sync") -> dict:
+def run_guard(policy: dict, req: dict, cfg: dict, flavour: str = "sync", cache=None) -> dict:
     """One cold evaluation on a fresh Guard; result in driver shape."""
     events: list = []
     try:
-        g = make_guard(policy, cfg, events, flavour=flavour)
+        g = make_guard(policy, cfg, events, flavour=flavour, cache=cache)
         d = call_guard(g, req, flavour)
     except Exception as e:  # noqa: BLE001
         return {"raised": exc_class(e)}
